@@ -43,6 +43,7 @@ type Extractor struct {
 	resolver        func(core.IndirectRef) (core.Object, error) // Reference resolver
 	xobjectDepth    int                                         // Current XObject nesting depth
 	maxXObjectDepth int                                         // Maximum nesting depth (prevents infinite recursion)
+	activeForms     map[core.IndirectRef]bool                   // Form XObjects being processed right now (cycle detection)
 }
 
 // NewExtractor creates a new text extractor with initialized graphics state.
@@ -400,6 +401,20 @@ func (e *Extractor) invokeXObject(name string) error {
 	}
 	if xobjRef == nil {
 		return nil // XObject not found
+	}
+
+	// A form must not be invoked from inside itself, directly or through the
+	// forms it invokes. The depth limit alone does not stop such a file: a
+	// form that invokes itself n times costs n^depth invocations.
+	if ref, ok := xobjRef.(core.IndirectRef); ok {
+		if e.activeForms[ref] {
+			return fmt.Errorf("XObject %s invokes itself", name)
+		}
+		if e.activeForms == nil {
+			e.activeForms = make(map[core.IndirectRef]bool)
+		}
+		e.activeForms[ref] = true
+		defer delete(e.activeForms, ref)
 	}
 
 	// Resolve the XObject
